@@ -3,6 +3,8 @@
 -/
 import Gmars.Model.Load
 import Gmars.Proofs.LoadLayout
+import Gmars.Proofs.AsmLayout
+import Gmars.Proofs.AsmLayoutExample
 import Gmars.Spec.LoadText
 import Gmars.Proofs.RoundTrip
 import Gmars.Proofs.AsmPrint
@@ -118,5 +120,40 @@ theorem layout_canonical (legacy : Bool) (code : List Instr) (start : Nat) :
     (LoadLayout.Layout.canon code).render legacy start = Spec.printLoad legacy code start :=
   LoadLayout.render_canonical legacy code start
 
+
+open AsmLayout LoadLayout in
+/-- `asm_print_any_layout` — the ASSEMBLER half: every layout perturbation `L` of a printed load
+    file (letter case, gaps of blanks / tabs / CR, trailing comments, LF or CR-LF, blank /
+    white-space / comment lines anywhere, final newline present or not) assembles to exactly the
+    printed warrior. `AsmPlain`: no filler line in front of END starts with `;name`, `;author`,
+    `;strategy` or `;assert` (those are metadata / assertions for the assembler). -/
+theorem asm_print_any_layout (cfg : Config) (L : Layout) (start : Nat)
+    (hok : AsmOK L) (hplain : AsmPlain L (cfg.mode == .icws88))
+    (hv : cfg.validate = true) (hM : cfg.coreSize.toNat < 2 ^ 63)
+    (hf : ∀ p ∈ L.lines, p.instr.a.toNat < cfg.coreSize.toNat ∧ p.instr.b.toNat < cfg.coreSize.toNat)
+    (h31 : ∀ p ∈ L.lines, p.instr.a.toNat < 2 ^ 31 ∧ p.instr.b.toNat < 2 ^ 31) (hs31 : start < 2 ^ 31)
+    (hstart : start < L.lines.length) (hlen : L.lines.length ≤ cfg.length.toNat)
+    (hl : (cfg.mode == .icws88) = true → ∀ p ∈ L.lines, Spec.Legal88 p.instr = true)
+    (src : List UInt8) (hsrc : decodeRunes src = L.render (cfg.mode == .icws88) start) :
+    assemble cfg src =
+      .ok { name := "", author := "", strategy := "", code := (L.lines.map (·.instr)).toArray,
+            start := (start : Int) } :=
+  AsmLayout.asm_print_any_layout cfg L start hok hplain hv hM hf h31 hs31 hstart hlen hl src hsrc
+
+open AsmLayout LoadLayout in
+/-- `both_readers_agree_any_layout` — C09 in one statement: for every layout perturbation of a
+    printed warrior the load-file reader and the assembler both return exactly that warrior's
+    instructions and entry point -/
+theorem both_readers_agree_any_layout (cfg : Config) (L : Layout) (start : Nat)
+    (hok : L.ok cfg.coreSize (cfg.mode == .icws88)) (hplain : AsmPlain L (cfg.mode == .icws88))
+    (hv : cfg.validate = true) (hM : cfg.coreSize.toNat < 2 ^ 63)
+    (h31 : ∀ p ∈ L.lines, p.instr.a.toNat < 2 ^ 31 ∧ p.instr.b.toNat < 2 ^ 31) (hs31 : start < 2 ^ 31)
+    (hstart : start < L.lines.length) (hlen : L.lines.length ≤ cfg.length.toNat)
+    (src : List UInt8) (hsrc : decodeRunes src = L.render (cfg.mode == .icws88) start) :
+    ∃ (w : WarriorData) (a : WarriorData),
+      parseLoadFile cfg (L.render (cfg.mode == .icws88) start) = .ok (some w) ∧
+      assemble cfg src = .ok a ∧ w.code = a.code ∧ w.start = a.start ∧
+      a.code = (L.lines.map (·.instr)).toArray ∧ a.start = (start : Int) :=
+  AsmLayout.both_readers_agree_any_layout cfg L start hok hplain hv hM h31 hs31 hstart hlen src hsrc
 
 end Gmars.Props.C09
